@@ -29,6 +29,36 @@ CHECKS = {
         design_ref="DESIGN.md §2 C02",
         note="Trusted: BLS (kyber bdn), SHA-256. Reference validator judges binding + signature + power, not block execution. Fast-sync path only at checkpoint heights (exempt by the property).",
     ),
+    "C03": dict(
+        engine="E-NODE",
+        category="exploration",
+        technique="differential runtime monitor: the same block executed on every path (propose, validate x2, validate after a discarded competing proposal, commit cached, commit replay, commit after restart, sync replay) on 3+1 full nodes with byte comparison of indexed blocks and full state dumps",
+        text="Seeded chains of generated transactions (failing, duplicate and oversize ones present on the proposer path) on three full nodes plus a late joiner; every node validates every "
+             "proposal (acceptance implies header-hash and certificate-result equality), commits by cached result or replay, one node is restarted from its file system, and a fresh node replays "
+             "the chain; after every block the indexed block bytes (header, tx results, events) and the full state dump are compared across nodes. GOMAXPROCS 1/2/16 and jittered SMT worker order.",
+        design_ref="DESIGN.md §2 C03",
+        note="Process-wide caches are purged when control passes between nodes of one test binary (real nodes do not share a process). Nondeterminism needing another machine is out of reach.",
+    ),
+    "C04": dict(
+        engine="E-NODE",
+        category="exploration",
+        technique="runtime invariant monitor: raw big.Int sums of all accounts, pools and stakes vs the recorded total after every block, and creation/destruction bounds from an independent mint re-derivation and slash events",
+        text="Seeded full-node chains (sends at 0/1/exact/over balance/near 2^64, tiny and large stakes, subsidies, approved DAO transfers with/without mint, parameter changes, non-sign slashes up "
+             "to 100%, halvening every 7/20 blocks, 3-unit mints). After each block: recorded total == sum of holdings; delta(total) <= scheduled mint + DAO mints, and the destroyed amount is "
+             "bounded by slash events plus the reward pools.",
+        design_ref="DESIGN.md §2 C04",
+        note="The undistributed-reward burn is bounded, not recomputed exactly. DEX/escrow flows belong to C20; plugins and the faucet are not configured.",
+    ),
+    "C06": dict(
+        engine="E-NODE",
+        category="exploration",
+        technique="runtime monitor with unique-value tagging: each payment goes to a fresh recipient, so a state scan counts executions; every same-content re-encoding of an included transaction is offered again through the real mempool/proposal/commit path",
+        text="Sends from ed25519 / secp256k1 / eth-secp256k1 / BLS keys; after the original is committed, the identical bytes and every variant from the wire-level generator (explicit default "
+             "fields, reordered fields, non-minimal varints, duplicated scalars, split embedded messages, alternative key encodings, malleated signatures, controls) are offered alone in later "
+             "blocks, batched, and in the same block; plus other-chain / other-network / creation-height-window cases.",
+        design_ref="DESIGN.md §2 C06, §3 F2",
+        note="RLP / RLP.V2 wrapped transactions and the lower window edge (needs > 4320 blocks) are not generated. Signature schemes are trusted.",
+    ),
     "C10": dict(
         engine="E-STORE",
         category="exploration",
@@ -161,8 +191,8 @@ def main():
 
 
 NA = {}
-HOOK_COMMITS = ["bffe7c1", "d8cae5e"]
-FIX_COMMITS = ["ac69fcc", "f14e602", "7290d0d", "11d5f11", "edf91ea", "ab4ad20", "ff68f31", "db26c33"]
+HOOK_COMMITS = ["bffe7c1", "d8cae5e", "19a33f0"]
+FIX_COMMITS = ["ac69fcc", "f14e602", "7290d0d", "11d5f11", "edf91ea", "ab4ad20", "ff68f31", "db26c33", "683ece4", "876170d", "cff6cea"]
 
 if __name__ == "__main__":
     main()
